@@ -67,11 +67,12 @@ let handle (line:string) : string =
       b2s r ^ " " ^ cpass_name p
   | "ZAP" -> let za = next_q () in let ha = next_q () in let zb = next_q () in let hb = next_q () in
              b2s (z_apart_num za ha zb hb)
-  | "SLAB" -> (* history of approxBoundFootprint requests (centre, height) on one region: the slabs handed out *)
+  | ("SLAB" | "SLABF") as cmd -> (* history of approxBoundFootprint requests (centre, height) on one region: the slabs handed out;
+                                   SLABF: padding 100 * height (branch fix-C04-footprint-slab-padding) *)
       let n = next_int () in
       let reqs = times n (fun () -> let c = next_q () in let h = next_q () in (c, h)) in
       let q2s (x:q) = let r = qred x in string_of_z r.qnum ^ "/" ^ string_of_z (Zpos r.qden) in
-      String.concat " " (List.map (fun s -> q2s s.s_c ^ ":" ^ q2s s.s_h) (run_requests approx None reqs))
+      String.concat " " (List.map (fun s -> q2s s.s_c ^ ":" ^ q2s s.s_h) (run_requests (if cmd = "SLAB" then approx else approx_flat) None reqs))
   | "FOOT" -> let a = next_bool () in let b = next_bool () in let c = next_bool () in
               b2s (contains_footprint { f_convex = a; f_poly_in = b; f_hull_in = c })
   | s -> failwith ("command " ^ s)
